@@ -1,11 +1,20 @@
 (* State SCHEMAS of the metric classes driven by the C02 check (DESIGN 4/C02 item 4): which kind each
    registered state has (tensor with ndim and dtype | list | dict | int | float) after a history of
-   updates, as a function of the class and of the SHAPES of the update inputs only.
-   A class is shape-deterministic when its schema never changes: then all ranks schema-agree whatever
-   their histories.  MeanSquaredError / R2Score / Covariance are not: the first update fixes the ndim.
+   updates, as a function of the class and of the SHAPE AND DTYPE of the update inputs.
+   (Up to round 3 the schema was a function of the shapes only and the tie only ever fed float32 data:
+   that model could not express known finding C02-state-dtype-follows-data.  An update now carries the
+   dtype code of its first tensor argument as well -- codes as vlib/syncutil.py DTYPES:
+   0 float32, 1 float64, 2 int32, 3 int64, 4 bool, 5 uint8.)
+   A class is input-deterministic when its schema never changes: then all ranks schema-agree whatever
+   their histories.  MeanSquaredError / R2Score / Covariance are not: the first (2-D / non-empty) update
+   fixes the ndim AND the dtype (the state is re-bound to the batch statistic; later updates accumulate
+   in place and keep both).  Max / Min are not: ``self.max = torch.max(self.max, torch.max(input))``
+   re-binds the state to a tensor of the PROMOTED dtype on every update.
    (List elements / dict values carry the ndim and dtype of the update inputs: an input contract.)
-   Tie: the harness compares [run_sync_schema] with the schema of the real objects after every
-   generated history.  Definitions only. *)
+   An update() that raises (an integer state cannot absorb a float batch in place; Covariance.update of
+   integer data; bool data for MSE / R2) leaves the schema as it is.
+   Tie: the harness compares [run_sync_schema] with the schema (kinds, ndim, dtype) of the real objects
+   after every generated history, and [run_sync_promote] with torch.promote_types.  Definitions only. *)
 From Coq Require Import ZArith List Bool String Arith.
 From TE Require Import Base.Val.
 Import ListNotations.
@@ -13,40 +22,74 @@ Open Scope string_scope.
 
 Inductive skind := KT (nd : nat) (dt : Z) | KList | KDict | KInt | KFloat.
 Definition schema := list (string * skind).            (* sorted by state name *)
-(* a class: initial schema, effect of one update() whose first tensor argument has the given shape *)
-Record sclass := { s_init : schema; s_upd : schema -> list nat -> schema }.
-Definition s_run (c : sclass) (h : list (list nat)) : schema := fold_left (s_upd c) h (s_init c).
+(* one update(): shape and dtype code of its first tensor argument (all tensor arguments of the
+   regression / aggregation classes are generated with one dtype) *)
+Definition upd_in := (list nat * Z)%type.
+Record sclass := { s_init : schema; s_upd : schema -> upd_in -> schema }.
+Definition s_run (c : sclass) (h : list upd_in) : schema := fold_left (s_upd c) h (s_init c).
 Definition const_class (s : schema) : sclass := {| s_init := s; s_upd := fun s _ => s |}.
 
 Definition nd_of (n : string) (s : schema) : nat :=
   match find (fun kx => String.eqb (fst kx) n) s with Some (_, KT nd _) => nd | _ => 0 end.
+Definition dt_of (n : string) (s : schema) : Z :=
+  match find (fun kx => String.eqb (fst kx) n) s with Some (_, KT _ d) => d | _ => (-1)%Z end.
 Definition set_nd (n : string) (nd : nat) (s : schema) : schema :=
   map (fun kx => if String.eqb (fst kx) n then (fst kx, match snd kx with KT _ d => KT nd d | k => k end) else kx) s.
+Definition set_dt (n : string) (d : Z) (s : schema) : schema :=
+  map (fun kx => if String.eqb (fst kx) n then (fst kx, match snd kx with KT nd _ => KT nd d | k => k end) else kx) s.
+
+(* ---- dtypes ---- *)
+Definition F32 : Z := 0%Z.
+Definition F64 : Z := 1%Z.
+Definition is_float (d : Z) : bool := Z.eqb d 0 || Z.eqb d 1.
+(* torch.promote_types on the six codes (tied exhaustively; other codes are not meaningful) *)
+Definition promote (a b : Z) : Z :=
+  if Z.eqb a 1 || Z.eqb b 1 then 1%Z                           (* float64 absorbs everything *)
+  else if Z.eqb a 0 || Z.eqb b 0 then 0%Z                      (* then float32 *)
+  else if Z.eqb a 3 || Z.eqb b 3 then 3%Z                      (* then int64, int32 *)
+  else if Z.eqb a 2 || Z.eqb b 2 then 2%Z
+  else if Z.eqb a 5 || Z.eqb b 5 then 5%Z                      (* uint8 over bool *)
+  else a.
+Definition has_f64 (l : list Z) : bool := existsb (fun d => Z.eqb d 1) l.
+(* dtype of torch.sum(x, dim=0): integer and bool inputs are accumulated in int64 *)
+Definition sum_dt (d : Z) : Z := if is_float d then d else 3%Z.
+
+(* Max.update / Min.update: the state is re-bound to torch.max(state, torch.max(input)): both 0-dim,
+   the result has the promoted dtype *)
+Definition ext_class (n : string) : sclass :=
+  {| s_init := [(n, KT 0 0)];
+     s_upd := fun s x => set_dt n (promote (dt_of n s) (snd x)) s |}.
 
 (* MeanSquaredError.update: ``if self.sum_squared_error.ndim == 0 and sum_squared_error.ndim == 1`` --
-   the batch statistic is 1-D iff the input is (n_sample, n_output) *)
+   the batch statistic square(target - input).sum(dim=0) is 1-D iff the input is (n_sample, n_output);
+   then the state is RE-BOUND to it (ndim 1, dtype of the statistic); otherwise ``+=`` in place: ndim and
+   dtype of the state stay (bool data: ``-`` raises).  sum_weight is only ever added to in place. *)
 Definition mse_class : sclass :=
   {| s_init := [("sum_squared_error", KT 0 0); ("sum_weight", KT 0 0)];
-     s_upd := fun s x => if Nat.eqb (List.length x) 2 && Nat.eqb (nd_of "sum_squared_error" s) 0
-                         then set_nd "sum_squared_error" 1 s else s |}.
+     s_upd := fun s x => if Nat.eqb (List.length (fst x)) 2 && Nat.eqb (nd_of "sum_squared_error" s) 0 && negb (Z.eqb (snd x) 4)
+                         then set_dt "sum_squared_error" (sum_dt (snd x)) (set_nd "sum_squared_error" 1 s) else s |}.
 (* R2Score.update: the same test on sum_squared_obs; three states switch together *)
+Definition r2_rebind (d : Z) (n : string) (s : schema) : schema := set_dt n d (set_nd n 1 s).
 Definition r2_class : sclass :=
   {| s_init := [("num_obs", KT 0 0); ("sum_obs", KT 0 0); ("sum_squared_obs", KT 0 0); ("sum_squared_residual", KT 0 0)];
-     s_upd := fun s x => if Nat.eqb (List.length x) 2 && Nat.eqb (nd_of "sum_squared_obs" s) 0
-                         then set_nd "sum_obs" 1 (set_nd "sum_squared_obs" 1 (set_nd "sum_squared_residual" 1 s)) else s |}.
-(* Covariance._update: the first non-empty batch replaces the scalar placeholders by (d,) and (d,d) *)
+     s_upd := fun s x => if Nat.eqb (List.length (fst x)) 2 && Nat.eqb (nd_of "sum_squared_obs" s) 0 && negb (Z.eqb (snd x) 4)
+                         then r2_rebind (sum_dt (snd x)) "sum_obs"
+                                (r2_rebind (sum_dt (snd x)) "sum_squared_obs"
+                                   (r2_rebind (sum_dt (snd x)) "sum_squared_residual" s)) else s |}.
+(* Covariance._update: the first non-empty batch replaces the scalar placeholders by (d,) and (d,d)
+   statistics of the input's dtype; obs.mean() raises for non-floating data *)
 Definition cov_class : sclass :=
   {| s_init := [("n", KInt); ("ss_sum", KT 0 0); ("sum", KT 0 0)];
-     s_upd := fun s x => match x with
-                         | k :: _ => if negb (Nat.eqb k 0) && Nat.eqb (nd_of "sum" s) 0
-                                     then set_nd "sum" 1 (set_nd "ss_sum" 2 s) else s
+     s_upd := fun s x => match fst x with
+                         | k :: _ => if negb (Nat.eqb k 0) && Nat.eqb (nd_of "sum" s) 0 && is_float (snd x)
+                                     then set_dt "sum" (snd x) (set_nd "sum" 1 (set_dt "ss_sum" (snd x) (set_nd "ss_sum" 2 s))) else s
                          | [] => s end |}.
 
 Definition class_table : list (string * sclass) := [
   ("Mean", const_class [("weighted_sum", KT 0 1); ("weights", KT 0 1)]);
   ("Sum", const_class [("weighted_sum", KT 0 1)]);
-  ("Max", const_class [("max", KT 0 0)]);
-  ("Min", const_class [("min", KT 0 0)]);
+  ("Max", ext_class "max");
+  ("Min", ext_class "min");
   ("Cat", const_class [("dim", KInt); ("inputs", KList)]);
   ("Cat2d", const_class [("dim", KInt); ("inputs", KList)]);
   ("Throughput", const_class [("elapsed_time_sec", KFloat); ("num_total", KFloat)]);
@@ -65,23 +108,44 @@ Definition class_table : list (string * sclass) := [
 Fixpoint class_of (k : string) (t : list (string * sclass)) : option sclass :=
   match t with [] => None | (k', c) :: r => if String.eqb k k' then Some c else class_of k r end.
 
-(* the classes whose schema cannot change *)
+(* the classes whose schema cannot change, whatever the shapes AND dtypes of the data
+   (Max / Min were listed here while the model knew shapes only; they are NOT deterministic) *)
 Definition deterministic_keys : list string :=
-  ["Mean"; "Sum"; "Max"; "Min"; "Cat"; "Cat2d"; "Throughput"; "MulticlassAccuracy"; "MulticlassAccuracyMacro";
+  ["Mean"; "Sum"; "Cat"; "Cat2d"; "Throughput"; "MulticlassAccuracy"; "MulticlassAccuracyMacro";
    "BinaryAUROC"; "DummySumMetric"; "DummySumListStateMetric"; "DictSumMetric"; "MixedMetric"].
-Definition shape_deterministic (c : sclass) : Prop := forall s x, s_upd c s x = s.
+(* the classes with a tensor state whose dtype (and, for the last four, ndim) follows the data *)
+Definition dtype_following_keys : list string :=
+  ["Max"; "Min"; "MeanSquaredError"; "MeanSquaredErrorRaw"; "R2ScoreRaw"; "Covariance"].
+Definition input_deterministic (c : sclass) : Prop := forall s x, s_upd c s x = s.
+
+(* shape provisos of the positive theorem: which update shapes fix the ndim at the first update *)
+Definition shape_proviso (k : string) (x : list nat) : bool :=
+  if String.eqb k "Max" || String.eqb k "Min" then true
+  else if String.eqb k "Covariance" then Nat.eqb (List.length x) 2 && negb (Nat.eqb (hd 0 x) 0)
+  else Nat.eqb (List.length x) 2.
+(* a rank's history for the positive theorem: at least one update, every update of dtype d and of a
+   shape meeting the proviso *)
+Definition uniform_hist (k : string) (d : Z) (h : list upd_in) : Prop :=
+  h <> [] /\ Forall (fun x => snd x = d /\ shape_proviso k (fst x) = true) h.
 
 Definition val_of_skind (k : skind) : val :=
   match k with
   | KT nd d => VT "t" [VZ (Z.of_nat nd); VZ d]
   | KList => VT "l" [] | KDict => VT "d" [] | KInt => VT "i" [] | KFloat => VT "f" [] end.
-(* (class-key (shape ...)) -> ((state kind) ...) *)
+Definition upd_of_val (x : val) : upd_in :=
+  match x with
+  | VL [VL l; VZ d] => (map (fun z => match z with VZ z => Z.to_nat z | _ => 0 end) l, d)
+  | _ => ([], 0%Z) end.
+(* (class-key (((extent ...) dtype-code) ...)) -> ((state kind) ...) *)
 (* @model sync_schema run_sync_schema *)
 Definition run_sync_schema (v : val) : val :=
   match v with
   | VL [VT k []; VL h] =>
       match class_of k class_table with
-      | Some c => VL (map (fun kx => VL [VT (fst kx) []; val_of_skind (snd kx)])
-                          (s_run c (map (fun x => match x with VL l => map (fun z => match z with VZ z => Z.to_nat z | _ => 0 end) l | _ => [] end) h)))
+      | Some c => VL (map (fun kx => VL [VT (fst kx) []; val_of_skind (snd kx)]) (s_run c (map upd_of_val h)))
       | None => VT "unknown-class" [] end
   | _ => vbad end.
+(* (a b) -> code of torch.promote_types *)
+(* @model sync_promote run_sync_promote *)
+Definition run_sync_promote (v : val) : val :=
+  match v with VL [VZ a; VZ b] => VZ (promote a b) | _ => vbad end.
